@@ -119,7 +119,7 @@ def run(tier, seed):
              "additionally by outcome sets over 256 story seeds" % ("120 paths x depth 10" if quick else "5000 paths x depth 30",
                                                                       12 if quick else 150),
         ex_kw=dict(depth=10 if quick else 30, max_paths=120 if quick else 5000, obs=dict(save=False, visits=False), fuel=2000000,
-                   walks=dict(n=12 if quick else 150, depth=120, seed=seed)),
+                   walks=dict(n=12 if quick else 150, depth=120, seed=seed, rounds=3 if quick else 5)),
         case_kw=dict(cmp=CMP, cmpall=CMP, cmpcb=False, cmpsave=False, cmpval=False, probed=True),
         extra_cov=dict(programs=len(small) + len(big)))
     sv, compared = shuffle_outcomes(tier, seed)
